@@ -73,6 +73,8 @@ structure StreamSpec (c : Codec) (mode : Nat) (name : List Nat) where
   tlChain : Chain dph tl
   tlOk : ∀ it ∈ tl, ItemOk it
   tlOut : ∀ it ∈ tl, it.out = []
+  dphData : needsRoom dph = true                      -- between the `begin` line and the terminator
+  tlEnd : needsRoom (lastPhase dph tl) = false        -- after the terminator
 
 theorem chain_data {c : Codec} {mode : Nat} {name : List Nat} (S : StreamSpec c mode name) (ps : List (List Nat)) :
     Chain S.dph (ps.map S.mkData ++ S.tl) := by
@@ -91,6 +93,12 @@ theorem outs_data {c : Codec} {mode : Nat} {name : List Nat} (S : StreamSpec c m
   induction ps with
   | nil => rfl
   | cons p r ih => simp [ih, (S.dataPh p).2.2]
+
+theorem lastPhase_data {c : Codec} {mode : Nat} {name : List Nat} (S : StreamSpec c mode name) (ps : List (List Nat)) :
+    lastPhase S.dph (ps.map S.mkData) = S.dph := by
+  induction ps with
+  | nil => rfl
+  | cons p r ih => simp only [List.map_cons, lastPhase, (S.dataPh p).2.1]; exact ih
 
 /-- **Round trip for every sequence of read windows**, generic in the codec. -/
 theorem stream_roundtrip {c : Codec} {mode : Nat} {name : List Nat} (S : StreamSpec c mode name)
@@ -118,10 +126,80 @@ theorem stream_roundtrip {c : Codec} {mode : Nat} {name : List Nat} (S : StreamS
     · obtain ⟨a1, a2, a3⟩ := hps p hp
       exact S.dataOk p (fun b hbm => hb b (a3 b hbm)) a1 a2
     · exact S.tlOk it hit
+  have hlast : lastPhase S.hdr.ph' ((pieces c.lbytes c.lpos x).map S.mkData ++ S.tl) = lastPhase S.dph S.tl := by
+    rw [S.hdrPh.2.1, lastPhase_append, lastPhase_data]
   rw [decode_with_header first orc S.hdr _ ⟨S.hdrPh.1, by rw [S.hdrPh.2.1]; exact chain_data S _⟩ hok
-    S.hdrPh.2.2 hshape (by have := congrArg List.length S.hdrLine; simp at this; omega)]
-  rw [outs_append, outs_data, pieces_flatten, (outs_eq_nil S.tl).mpr S.tlOut]
-  simp
+    S.hdrPh.2.2 hshape (by have := congrArg List.length S.hdrLine; simp at this; omega)
+    (by intro h; rw [hlast, S.tlEnd] at h; simp at h)]
+  rw [hlast, outs_append, outs_data, pieces_flatten, (outs_eq_nil S.tl).mpr S.tlOut]
+  simp [endR, S.tlEnd]
+
+/-- **A stream cut at a line border before its trailer is reported, not taken for
+complete**: with at least one data line left and nothing after the data lines,
+the consumer gets the bytes of the lines that are there and then a fatal error
+("Truncated uuencoded data: missing end marker"), for every sequence of read
+windows. -/
+theorem stream_truncated {c : Codec} {mode : Nat} {name : List Nat} (S : StreamSpec c mode name)
+    (x : List Nat) (hb : Bytes x) (j : Nat) (hj : 0 < j) (hjl : j ≤ (pieces c.lbytes c.lpos x).length)
+    (first : Nat) (orc : List Nat) (hfirst : (header c mode name).length ≤ first) :
+    decode first orc (header c mode name ++ (((pieces c.lbytes c.lpos x).take j).map c.encLine).flatten) =
+      .fatal ((pieces c.lbytes c.lpos x).take j).flatten := by
+  have hps := pieces_mem c.lbytes c.lpos x
+  generalize hq : (pieces c.lbytes c.lpos x).take j = ps
+  have hmem : ∀ p ∈ ps, p ∈ pieces c.lbytes c.lpos x := fun p hp => List.mem_of_mem_take (hq ▸ hp)
+  have hne : ps ≠ [] := by
+    intro h; have := congrArg List.length hq; rw [h, List.length_take] at this
+    simp only [List.length_nil] at this; omega
+  have hitems : header c mode name ++ (ps.map c.encLine).flatten = text (S.hdr :: (ps.map S.mkData ++ [])) := by
+    rw [text_cons, List.append_nil, text_data, S.hdrLine]
+  rw [hitems]
+  have hdata : ∀ it ∈ ps.map S.mkData, it.out ≠ [] := by
+    intro it hit
+    simp only [List.mem_map] at hit
+    obtain ⟨p, hp, rfl⟩ := hit
+    rw [(S.dataPh p).2.2]
+    exact List.ne_nil_of_length_pos (hps p (hmem p hp)).1
+  have hshape : Shape (ps.map S.mkData ++ []) := ⟨_, [], rfl, hdata, by simp⟩
+  have hok : ∀ it ∈ S.hdr :: (ps.map S.mkData ++ []), ItemOk it := by
+    intro it hit
+    simp only [List.append_nil, List.mem_cons, List.mem_map] at hit
+    rcases hit with rfl | ⟨p, hp, rfl⟩
+    · exact S.hdrOk
+    · obtain ⟨a1, a2, a3⟩ := hps p (hmem p hp)
+      exact S.dataOk p (fun b hbm => hb b (a3 b hbm)) a1 a2
+  have hchain : Chain S.dph (ps.map S.mkData ++ []) := by
+    have : ∀ qs : List (List Nat), Chain S.dph (qs.map S.mkData ++ []) := by
+      intro qs; induction qs with
+      | nil => trivial
+      | cons p r ih => exact ⟨(S.dataPh p).1, by rw [(S.dataPh p).2.1]; exact ih⟩
+    exact this ps
+  have hlast : lastPhase S.hdr.ph' (ps.map S.mkData ++ []) = S.dph := by
+    rw [S.hdrPh.2.1, lastPhase_append, lastPhase_data]; rfl
+  have hnz : NoZeroSuffix (lastPhase S.hdr.ph' (ps.map S.mkData ++ [])) (S.hdr :: (ps.map S.mkData ++ [])) := by
+    intro _ done items hs hine
+    rw [List.append_nil] at hs
+    cases done with
+    | nil =>
+      simp only [List.nil_append] at hs
+      rw [← hs, outs_cons, S.hdrPh.2.2, List.nil_append]
+      cases hps' : ps with
+      | nil => exact absurd hps' hne
+      | cons p r =>
+        simp only [List.map_cons, outs_cons]
+        intro h
+        exact hdata (S.mkData p) (by rw [hps']; simp) (List.append_eq_nil_iff.mp h).1
+    | cons d ds =>
+      simp only [List.cons_append, List.cons.injEq] at hs
+      cases items with
+      | nil => exact absurd rfl hine
+      | cons i r =>
+        intro h
+        simp only [outs_cons] at h
+        exact hdata i (by rw [hs.2]; simp) (List.append_eq_nil_iff.mp h).1
+  rw [decode_with_header first orc S.hdr _ ⟨S.hdrPh.1, by rw [S.hdrPh.2.1]; exact hchain⟩ hok
+    S.hdrPh.2.2 hshape (by have := congrArg List.length S.hdrLine; simp at this; omega) hnz]
+  rw [hlast, List.append_nil, outs_data]
+  simp [endR, S.dphData]
 
 /-- The hazard the hypothesis `hfirst` of `stream_roundtrip` excludes: if the very
 first window ends exactly after the `begin` line, `uudecode_filter_read` has
@@ -164,7 +242,13 @@ theorem header_only_window {c : Codec} {mode : Nat} {name : List Nat} (S : Strea
     intro h; simp [needsRoom] at h
   simp only [h1, h2, h3, if_false, S.hdrPh.2.2, loopR_cons_nil, hlen, Nat.sub_self]
   cases (pieces c.lbytes c.lpos x).map S.mkData ++ S.tl with
-  | nil => simp [specLoop, cont, needsRoom]
-  | cons it r => simp [specLoop, cont, needsRoom]
+  | nil =>
+    simp [specLoop, cont, needsRoom]
+    intro hw; have := congrArg List.length hw
+    simp only [window, List.length_take, Item.line_length, List.length_nil] at this; omega
+  | cons it r =>
+    simp [specLoop, cont, needsRoom]
+    intro hw; have := congrArg List.length hw
+    simp only [window, List.length_take, List.length_append, Item.line_length, List.length_nil] at this; omega
 
 end LA.UuRead
